@@ -82,7 +82,13 @@ def _fold_const_operation(
                 val = lhs.value.data / rhs.value.data
         case _:
             return
-    return arith.ConstantOp(builtin.FloatAttr(val, lhs.type))
+    try:
+        return arith.ConstantOp(builtin.FloatAttr(val, lhs.type))
+    except OverflowError:
+        # finite in double precision but rounds to infinity in the (narrower) type
+        return arith.ConstantOp(
+            builtin.FloatAttr(math.copysign(float("inf"), val), lhs.type)
+        )
 
 
 class FoldConstConstOp(RewritePattern):
